@@ -69,7 +69,12 @@ def run_cases(ck, res, n_cases, n_interval):
         ncols = max(ncols, 1) if ncols != k else k
         net = make_net([Probe(m, r, nterms=2) for _ in range(ncols)])
         inp = {'sub_conditions': kinds, 'input_width': m, 'net_outputs': ncols, 'points': [[float(v) for v in x.detach().reshape(-1)] for x in X]}
-        ens = C.EnsembleCondition(*subs)
+        try:
+            ens = C.EnsembleCondition(*subs)
+        except Exception as e:
+            ck.fail(f'ensemble/constructor-rejects-{"+".join(sorted(set(kinds)))}',
+                    f'EnsembleCondition refused closed-form sub-conditions {kinds}: {type(e).__name__}: {e}', {'sub_conditions': kinds})
+            continue
         dist['tuple_kinds'][','.join(kinds)] = dist['tuple_kinds'].get(','.join(kinds), 0) + 1
         dist['widths'][f'k={k},m={m},cols={ncols}'] = dist['widths'].get(f'k={k},m={m},cols={ncols}', 0) + 1
         ck.add_case(('tuple', kinds, m, ncols, ci))
@@ -143,14 +148,14 @@ def run_cases(ck, res, n_cases, n_interval):
             if tuple(out.shape) != tuple(raw.shape) or not torch.equal(out, raw):
                 ck.fail('nocondition/not-identity', f'NoCondition changed the raw output for {m} inputs, {kk} outputs', {'in': m, 'out': kk})
             for unit in range(kk):
-                c = C.IVP(t_0=0.5, u_0=1.25) if m == 1 else C.NoCondition()
+                c = C.IVP(t_0=0.5, u_0=1.25) if (m == 1 and unit % 2 == 0) else C.NoCondition()
                 with warnings.catch_warnings():
                     warnings.simplefilter('ignore')
                     c.set_impose_on(unit)
                 got = c.enforce(net, *X)
                 exp = c.parameterize(raw[:, unit:unit + 1], *X)
                 ck.add_case(('unit', kk, m, unit))
-                if not torch.allclose(got, exp, rtol=1e-12, atol=1e-12):
+                if tuple(got.shape) != tuple(exp.shape) or not torch.allclose(got, exp, rtol=1e-12, atol=1e-12):
                     ck.fail('ith_unit/wrong-column', f'ith_unit={unit}: enforce differs from parameterize(output column {unit})', {'in': m, 'out': kk, 'unit': unit})
     # ---- (4) the constructor's override test on the real classes
     for name, cls in inspect.getmembers(C, inspect.isclass):
